@@ -106,7 +106,14 @@ func (p *core) put(v any) {
 	}
 	simrt.RaceRelease(unsafe.Pointer(&p.sync))
 	p.free = append(p.free, v)
+	// a released object may be taken by another task at once: a scheduling point right behind the release,
+	// so that whatever the releasing task still does to the object happens under its new owner's hands
+	simrt.Yield(sitePut)
 }
+
+const sitePut = 99001
+
+func init() { simrt.RegisterSites(sitePut, []string{"simpool.Put"}) }
 
 // Pool is a deterministic free list.
 type Pool[T any] struct {
